@@ -23,8 +23,9 @@ type stopScan struct {
 }
 
 func runC17(r *ev.Run) {
-	r.Rule = "every table and index b-tree shape image within bounds x every stoppable scan {SelectDone, driver result set closed after k rows, Table.Scan, Index.Scan, ScanMin/ScanEq/ScanRange with several keys} x every stop position k=1..result size: exactly the first k rows of the unstopped result, callback invoked exactly k times, nil error, pager lock released (lock/unlock balance of the in-memory pager); behind the stop point: on images with overflow rows, for every scan and every k, every page the unstopped scan first reads after row k is made unreadable: the scan stopped at k still delivers exactly its k rows and returns nil; non-trivial = stop positions on multi-level trees. read histories: every ordered pair (an operation run to its end or stopped at row k in {1, 2, 3, half, last-1}; any operation) on one handle over the T1+T2+T3 images: the second result is a fresh handle's"
+	r.Rule = "stopped-then-commit histories: a read stopped after k rows (4 kinds x k at and around the first leaf boundary), a commit by another process (3 kinds), then every kind of read, stopped at k and run to its end, delivers the first rows of the CURRENT result (a fresh handle's). every table and index b-tree shape image within bounds x every stoppable scan {SelectDone, driver result set closed after k rows, Table.Scan, Index.Scan, ScanMin/ScanEq/ScanRange with several keys} x every stop position k=1..result size: exactly the first k rows of the unstopped result, callback invoked exactly k times, nil error, pager lock released (lock/unlock balance of the in-memory pager); behind the stop point: on images with overflow rows, for every scan and every k, every page the unstopped scan first reads after row k is made unreadable: the scan stopped at k still delivers exactly its k rows and returns nil; non-trivial = stop positions on multi-level trees. read histories: every ordered pair (an operation run to its end or stopped at row k in {1, 2, 3, half, last-1}; any operation) on one handle over the T1+T2+T3 images: the second result is a fresh handle's"
 	defer readHistories(r, "C17")
+	defer stoppedThenCommit(r, "C17")
 	r.Set("bounds", fmt.Sprintf("%+v", allBounds(r)))
 	for _, b := range allBounds(r) {
 		c17Shapes(r, b)
